@@ -379,8 +379,7 @@ def _linear(repo, col):
                 f"receives ({t2.short(60)}, {t3.short(60)})", node=gs)
 
 
-def _additive(repo, col):
-    R = "R-C09-additive"
+def _additive(repo, col, R="R-C09-additive"):
     fi = repo.func("jaxley/utils/syn_utils.py", "gather_synapes")
     ex = idx.expander(repo, fi)
     if not ex.returns or ex.returns[0].op != "tuple" or len(ex.returns[0].args) != 2:
